@@ -421,7 +421,7 @@ theorem wavelength_from_tof_rounding (h mn sA sL sT t L : Fl R)
 theorem dspacing_from_tof_rounding (h mn sA sL sT sAng t L θ : Fl R) (ks : ℕ)
     (oh : TyOk R u h.ty) (om : TyOk R u mn.ty) (oA : TyOk R u sA.ty) (oL : TyOk R u sL.ty) (oT : TyOk R u sT.ty)
     (ot : TyOk R u t.ty) (ol : TyOk R u L.ty)
-    (hsin : Approx R u (sinU (θ / i64 2) sAng) (sinU (θ.val / i64 2) sAng.val) ks) :
+    (hsin : Approx R u (sinU (asFloatLike θ t / i64 2) sAng) (sinU (asFloatLike θ.val t.val / i64 2) sAng.val) ks) :
     Approx R u (dspacingFromTof (cDspacingFromTof h mn sA sL sT) sAng t L θ)
       (dspacingFromTof (cDspacingFromTof h.val mn.val sA.val sL.val sT.val) sAng.val t.val L.val θ.val) (ks + 10) := by
   have E := fun (a : Fl R) (o : TyOk R u a.ty) => Approx.exact hu hu1 a o
@@ -430,17 +430,24 @@ theorem dspacing_from_tof_rounding (h mn sA sL sT sAng t L θ : Fl R) (ks : ℕ)
       (Approx.div hu hu1 (Approx.div hu hu1 (Approx.mul hu hu1 (Approx.lit hu hu1 2) (E mn om)) (E h oh))
         (Approx.div hu hu1 (Approx.div hu hu1 (E sT oT) (E sA oA)) (E sL oL))) (E L ol)) hsin) ot)) (E t ot))
 
+theorem tyOk_cEnergy {mn sE sL sT : Fl R}
+    (om : TyOk R u mn.ty) (oE : TyOk R u sE.ty) (oL : TyOk R u sL.ty) (oT : TyOk R u sT.ty) :
+    TyOk R u (cEnergy mn sE sL sT).ty :=
+  (Approx.div hu hu1 (Approx.div hu hu1 (Approx.exact hu hu1 mn om) (Approx.lit hu hu1 2))
+    (Approx.mul hu hu1 (Approx.exact hu hu1 sE oE)
+      (Approx.sq hu hu1 (Approx.div hu hu1 (Approx.exact hu hu1 sT oT) (Approx.exact hu hu1 sL oL))))).1
+
 theorem energy_from_tof_rounding (mn sE sL sT t L : Fl R)
     (om : TyOk R u mn.ty) (oE : TyOk R u sE.ty) (oL : TyOk R u sL.ty) (oT : TyOk R u sT.ty)
     (ot : TyOk R u t.ty) (ol : TyOk R u L.ty) :
     Approx R u (energyFromTof (cEnergy mn sE sL sT) t L)
-      (energyFromTof (cEnergy mn.val sE.val sL.val sT.val) t.val L.val) 14 := by
+      (energyFromTof (cEnergy mn.val sE.val sL.val sT.val) t.val L.val) 16 := by
   have E := fun (a : Fl R) (o : TyOk R u a.ty) => Approx.exact hu hu1 a o
   exact Approx.mono hu hu1 (by norm_num)
     (Approx.div hu hu1 (Approx.cast hu hu1 (Approx.mul hu hu1
       (Approx.div hu hu1 (Approx.div hu hu1 (E mn om) (Approx.lit hu hu1 2))
         (Approx.mul hu hu1 (E sE oE) (Approx.sq hu hu1 (Approx.div hu hu1 (E sT oT) (E sL oL)))))
-      (Approx.sq hu hu1 (E L ol))) ot) (Approx.sqSame hu hu1 (E t ot)))
+      (Approx.sq hu hu1 (Approx.cast hu hu1 (E L ol) (tyOk_cEnergy hu hu1 om oE oL oT)))) ot) (Approx.sqSame hu hu1 (E t ot)))
 
 theorem energy_from_wavelength_rounding (h mn sE sW w : Fl R)
     (oh : TyOk R u h.ty) (om : TyOk R u mn.ty) (oE : TyOk R u sE.ty) (oW : TyOk R u sW.ty) (ow : TyOk R u w.ty) :
@@ -549,7 +556,7 @@ theorem energy_from_tof_within_1e5 (R : Rounding) (h32 : R.u32 = (2 : ℝ)⁻¹ 
 /-- with the sine accurate to `ks ≤ 50` roundings, `dspacing_from_tof` is within 1e-11 in double precision -/
 theorem dspacing_from_tof_within_1e11 (R : Rounding) (h64 : R.u64 = (2 : ℝ)⁻¹ ^ 53) (h mn sA sL sT sAng t L θ : Fl R)
     (ks : ℕ) (hks : ks ≤ 50) (ok : ∀ a ∈ [h, mn, sA, sL, sT, t, L], a.ty ≠ .f32)
-    (hsin : Approx R R.u64 (sinU (θ / i64 2) sAng) (sinU (θ.val / i64 2) sAng.val) ks) :
+    (hsin : Approx R R.u64 (sinU (asFloatLike θ t / i64 2) sAng) (sinU (asFloatLike θ.val t.val / i64 2) sAng.val) ks) :
     |(dspacingFromTof (cDspacingFromTof h mn sA sL sT) sAng t L θ).val
         - dspacingFromTof (cDspacingFromTof h.val mn.val sA.val sL.val sT.val) sAng.val t.val L.val θ.val|
       ≤ 1e-11 * |dspacingFromTof (cDspacingFromTof h.val mn.val sA.val sL.val sT.val) sAng.val t.val L.val θ.val| := by
